@@ -6,7 +6,9 @@ PATCH=/verif/seeded/$S/patch.diff
 [ -f /verif/seeded/$S/patch.rebased.diff ] && PATCH=/verif/seeded/$S/patch.rebased.diff
 if ! git apply --check $PATCH 2>/dev/null; then echo "patch $S does not apply to the current tree (needs patch.rebased.diff)"; exit 2; fi
 git apply $PATCH
-/verif/check.sh $P quick > /tmp/try_seed_$S.log 2>&1; rc=$?
+# development run: never touches the committed evidence files
+/verif/bin/govc check -property $P -tier quick -no-evidence -outdir /tmp/try_seed_out_$S > /tmp/try_seed_$S.log 2>&1; rc=$?
+rm -rf /tmp/try_seed_out_$S
 git -C /repo checkout -f HEAD -- . ; git -C /repo reset -q --hard HEAD
 grep -E "^(VIOLATION|KNOWN|UNDECIDED|ENGINE|property=)" /tmp/try_seed_$S.log | cut -c1-260
 echo "seed=$S property=$P exit=$rc"
